@@ -1491,6 +1491,11 @@ class SyncObj(object):
                 matchIdx = self.__snapshotAlreadyHeld(data[1][1], data[1][2])
                 if matchIdx is not None:
                     return matchIdx
+                if len(data) > 4 and data[4] > self.__selfCodeVersion:
+                    # Taken after a switch to a code version this node lacks: installing it would carry the node past
+                    # the VERSION entry at which it has to stop
+                    logger.error('snapshot needs code version %d, self version: %d' % (data[4], self.__selfCodeVersion))
+                    return False
                 # It will be installed: only now does it replace the stored snapshot
                 self.__serializer.acceptTransmission()
             if data[0] is not None:
